@@ -134,7 +134,7 @@ func traceAPIHistories(r *evid.Run, nHist, maxCalls int) {
 				descs = append(descs, fmt.Sprintf("#%d.Add(%q) -> #%d", p, s, id))
 			default:
 				p := rng.Intn(len(nodes)) // 0 = nil
-				kind := []string{"text", "tree", "walk"}[rng.Intn(3)]
+				kind := []string{"text", "tree", "walk", "mkdir"}[rng.Intn(4)]
 				g := noneGot()
 				cb := tok.WithBranches(c, 4) // decodable branch strings are those of TraceConc itself
 				cb.LD, cb.LI, cb.MD, cb.MI = c.LD, c.LI, c.MD, c.MI
@@ -155,6 +155,30 @@ func traceAPIHistories(r *evid.Run, nHist, maxCalls int) {
 							}
 						} else {
 							g.K = "undecodable"
+						}
+					}
+				case "mkdir":
+					// into a fresh directory: what appears there, as token paths
+					var paths []string
+					paths, o = real.MkdirRootFresh(nodes[p])
+					if o.Class() == "ok" {
+						g.K = "mkdir"
+						for _, pth := range paths {
+							var toks []string
+							for i, comp := range strings.Split(strings.TrimSuffix(pth, "/"), "/") {
+								ts, ok := cb.Decode(comp)
+								if !ok {
+									ts = []string{"UNDECODABLE"}
+								}
+								if i > 0 {
+									toks = append(toks, "SL")
+								}
+								toks = append(toks, ts...)
+							}
+							if !strings.HasSuffix(pth, "/") {
+								toks = append(toks, "IS-A-FILE")
+							}
+							g.Rows = append(g.Rows, toks)
 						}
 					}
 				case "walk":
